@@ -28,12 +28,18 @@ func classify(r interface{}, o *Obs) {
 		o.Code = string(e.Code())
 		o.Msg = clip(e.Error())
 		o.Line, o.Col = -1000000, -1000000
+		if o.Aux == nil {
+			o.Aux = map[string]string{}
+		}
 		if loc := e.Location(); loc != nil {
 			o.Line, o.Col = loc.Line(), loc.Pos()
-			if o.Aux == nil {
-				o.Aux = map[string]string{}
-			}
 			o.Aux["file"] = loc.File()
+		}
+		// the arguments of the issue that identify the place (never the wording)
+		for _, k := range []string{"function", "index", "name"} {
+			if a := e.Argument(k); a != nil {
+				o.Aux[k] = clip(fmt.Sprint(a))
+			}
 		}
 	case runtime.Error:
 		o.Class = "runtime"
@@ -103,6 +109,8 @@ func handle(r Req) (o Obs) {
 				o.Out = t.String()
 			}()
 		}()
+	case "R": // Context.ParseType observed for the model of the resolve stage (coq/Model/Resolve.v)
+		resolveObs(r.In, &o)
 	case "L": // the lexer alone
 		o.Class = "ok"
 		o.Aux = map[string]string{}
@@ -217,6 +225,145 @@ func dumpList(vs []px.Value, depth int) string {
 		es[i] = dumpValue(e, depth+1)
 	}
 	return lib.GList(es, "pv")
+}
+
+// plainValue: the values on which resolveValue (deferredtype.go:80) is the identity up to naming bare types: the
+// predicate `plain` of coq/Model/Resolve.v.
+func plainValue(v px.Value) bool {
+	switch x := v.(type) {
+	case nil:
+		return false
+	case *types.DeferredType:
+		return x.Parameters() == nil
+	case types.Deferred, *types.HashEntry:
+		return false
+	case *types.UndefValue, *types.DefaultValue, px.Boolean, px.Integer, px.Float, px.StringValue, *types.Regexp:
+		return true
+	case *types.Array:
+		return x.All(plainValue)
+	case *types.Hash:
+		return x.AllPairs(func(k, v px.Value) bool { return plainValue(k) && plainValue(v) })
+	}
+	return false
+}
+
+func plainValues(vs []px.Value) bool {
+	for _, v := range vs {
+		if !plainValue(v) {
+			return false
+		}
+	}
+	return true
+}
+
+// lowerTable: strings.ToLower on every string among the values (the oracle `lower` of the model).
+func lowerTable(vs []px.Value, seen map[string]bool, out *[]string) {
+	for _, v := range vs {
+		switch x := v.(type) {
+		case px.StringValue:
+			if s := x.String(); !seen[s] {
+				seen[s] = true
+				*out = append(*out, "("+lib.GStr(s)+", "+lib.GStr(strings.ToLower(s))+")")
+			}
+		case *types.Array:
+			lowerTable(x.AppendTo(nil), seen, out)
+		}
+	}
+}
+
+// resolveObs: when the input parses to Enum[plain parameters] (kind 0) or to T[Deferred(name, plain arguments)]
+// with T other than TypeSet (kind 1), runs Context.ParseType on it and writes the case for resolve_check
+// (coq/Corr/CorrC06.v) into o.Term; otherwise o.Term stays empty (the input is outside the model).
+func resolveObs(in string, o *Obs) {
+	o.Class = "ok"
+	o.Aux = map[string]string{}
+	var v px.Value
+	parsed := func() (ok bool) {
+		defer func() {
+			if recover() != nil {
+				ok = false
+			}
+		}()
+		v = types.Parse(in)
+		return true
+	}()
+	if !parsed {
+		return
+	}
+	dt, isType := v.(*types.DeferredType)
+	if !isType || dt.Parameters() == nil {
+		return
+	}
+	ps := dt.Parameters()
+	kind := -1
+	if dt.Name() == "Enum" && plainValues(ps) {
+		kind = 0
+	} else if len(ps) == 1 && dt.Name() != "TypeSet" {
+		if d, ok := ps[0].(types.Deferred); ok && plainValues(d.Arguments().AppendTo(nil)) {
+			kind = 1
+		}
+	}
+	if kind < 0 {
+		return
+	}
+	var args string
+	func() {
+		defer func() {
+			if recover() != nil {
+				args = ""
+			}
+		}()
+		args = dumpList(ps, 0)
+	}()
+	if args == "" {
+		return
+	}
+	var lows []string
+	lowerTable(ps, map[string]bool{}, &lows)
+
+	var po Obs
+	var t px.Type
+	func() {
+		defer func() { classify(recover(), &po) }()
+		pcore.Do(func(c px.Context) { t = c.ParseType(in) })
+	}()
+	class, index, values, ci, name := 3, int64(0), []string{}, false, ""
+	switch po.Class {
+	case "ok":
+		class = 0
+		if kind == 0 {
+			et, ok := t.(*types.EnumType)
+			if !ok {
+				class = 3
+				break
+			}
+			if vs, ok := et.Get("values"); ok {
+				vs.(px.List).Each(func(e px.Value) { values = append(values, lib.GStr(e.String())) })
+			}
+			if b, ok := et.Get("case_insensitive"); ok {
+				ci = b.(px.Boolean).Bool()
+			}
+		}
+	case "runtime":
+		class = 2
+	case "reported":
+		switch {
+		case faultMessage(po.Msg):
+			class = 2
+		case po.Code == string(px.IllegalArgumentType) && po.Aux["function"] == "Enum[]":
+			class = 1
+			n, _ := strconv.ParseInt(po.Aux["index"], 10, 64)
+			index = n
+		case po.Code == string(px.UnknownVariable):
+			class = 4
+			name = po.Aux["name"]
+		}
+	}
+	o.Aux["rkind"] = strconv.Itoa(kind)
+	o.Aux["rclass"] = strconv.Itoa(class)
+	o.Msg = po.Msg
+	o.Term = fmt.Sprintf("mkRCase %d%%nat %s\n     %s\n     %d%%nat %s %s %s %s", kind, args, lib.GList(lows, "str * str"),
+		class, lib.GZ(index), lib.GList(values, "str"), lib.GBool(ci), lib.GStr(name))
 }
 
 func serve() { workerMain(handle) }
